@@ -60,6 +60,42 @@ def run(plan):
             if kind == "beep":
                 ac.beep = op["value"]
                 continue
+            if kind == "bad_apply":
+                # a write the encoder cannot express is refused (or clamped) - either way the commands that follow
+                # continue the id sequence without a gap
+                old = ac.fan_speed
+                try:
+                    ac.fan_speed = op["value"]
+                    await ac.apply()
+                except Exception:       # noqa: BLE001 - refusing is fine; what it leaves behind is judged
+                    w.fire("unencodable_setting_refused")
+                try:
+                    ac.fan_speed = old
+                except Exception:       # noqa: BLE001
+                    pass
+                if dev.violations:
+                    v = dev.violations[0]
+                    res.fail(f"device-side strict parser rejected a command ({v[0]}: {v[1]})", bytes(v[2]).hex())
+                    return
+                continue
+            if kind == "race_caps":
+                # a poll is waiting for its (slow) state reply while the capabilities are queried again and the
+                # unit now reports a different set of properties
+                dev.caps_pages = [([(cid, bytes.fromhex(v)) for cid, v in recs], add) for recs, add in op["pages"]]
+                dev.script = [{"lat": op.get("lat", 0.5)}]
+                ra, rb = await asyncio.gather(_cap(w, ac.refresh()), _cap(w, ac.get_capabilities()))
+                dev.script = []
+                for r in (ra, rb):
+                    if r.kind != "ok":
+                        res.fail(f"refresh next to get_capabilities raised {r.exc_type}", repr(r.exc))
+                        return
+                if dev.violations:
+                    v = dev.violations[0]
+                    res.fail(f"device-side strict parser rejected a command ({v[0]}: {v[1]})", bytes(v[2]).hex())
+                    return
+                w.fire("refresh_overlaps_capability_query")
+                await asyncio.sleep(0.6)
+                continue
             if kind == "concurrent":
                 # two device objects in one process operate at the same time (they share the id counter)
                 other = s.clients[1]
@@ -159,6 +195,12 @@ def gen(j, rng, nops):
         r = rng.random()
         if r < 0.05 and version == 2:
             ops.append({"op": "concurrent"})
+        elif r < 0.07:
+            ops.append({"op": "bad_apply", "value": rng.choice([300, -1, 256, 1000, 50.5, 128, 255])})
+        elif r < 0.09:
+            sub = [c for c in PROP_CAPS if rng.random() < 0.5] + [(0x0214, b"\x01")]
+            rng.shuffle(sub)
+            ops.append({"op": "race_caps", "pages": [[[(c, v.hex()) for c, v in sub], None]], "lat": rng.choice([0.1, 0.5, 1.0])})
         elif r < 0.25:
             ops.append({"op": "refresh"})
         elif r < 0.32:
